@@ -3,9 +3,9 @@
 (* non-ASCII characters x 0..2 via servers x every action, in both forms.      *)
 EXTENDS MatrixUri, Json, TLC
 UserIds == {<<64,97,58,115,46,99,111>>, <<64,97,47,98,58,115,46,99,111>>, <<64,97,37,98,58,115,46,99,111>>, <<64,97,37,52,49,58,115,46,99,111>>, <<64,97,63,98,58,115,46,99,111>>, <<64,97,35,98,58,115,46,99,111>>, <<64,97,32,98,58,115,46,99,111>>, <<64,233,58,115,46,99,111>>, <<64,97,43,98,38,99,61,100,58,115,46,99,111>>, <<64,128512,58,91,58,58,49,93,58,56,48>>, <<64,97,58,115,46,99,111,58,56,52,52,56>>}
-RoomIds == {<<33,114,58,115,46,99,111>>, <<33,114,47,120,37,50,70,58,115,46,99,111>>, <<33,110,111,100,111,109,97,105,110>>, <<33,97,63,98,35,99,58,115,46,99,111>>, <<33,233,58,115,46,99,111>>}
+RoomIds == {<<33>>, <<33,114,58,115,46,99,111>>, <<33,114,47,120,37,50,70,58,115,46,99,111>>, <<33,110,111,100,111,109,97,105,110>>, <<33,97,63,98,35,99,58,115,46,99,111>>, <<33,233,58,115,46,99,111>>}
 AliasIds == {<<35,97,58,115,46,99,111>>, <<35,97,35,98,32,63,58,115,46,99,111>>, <<35,97,47,98,37,58,115,46,99,111>>, <<35,233,58,115,46,99,111>>}
-EventIds == {<<36,101,58,115,46,99,111>>, <<36,97,99,82,49,88,98,74,47,69,69,119,43,106,72,75,87,103,120,71,82,114,115,109,66,79,116,78,113,115,67,100,120,90,120,51,73,52,65,88,78,100,75,119>>, <<36,101,37,50,70,58,115,46,99,111>>, <<36,101,63,120,61,121,38,122,58,115,46,99,111>>, <<36,233,58,115,46,99,111>>}
+EventIds == {<<36>>, <<36,101,58,115,46,99,111>>, <<36,97,99,82,49,88,98,74,47,69,69,119,43,106,72,75,87,103,120,71,82,114,115,109,66,79,116,78,113,115,67,100,120,90,120,51,73,52,65,88,78,100,75,119>>, <<36,101,37,50,70,58,115,46,99,111>>, <<36,101,63,120,61,121,38,122,58,115,46,99,111>>, <<36,233,58,115,46,99,111>>}
 ViaServers == {<<115,46,99,111>>, <<91,58,58,49,93,58,56,48>>, <<97,45,98,46,99,58,56,52,52,56>>}
 Customs == {<<97,38,98>>, <<97,32,98>>, <<97,37,50,54,98>>, <<233>>, <<97,43,98>>, <<97,61,98,35,99>>, <<>>, <<106,111,105,110,50>>, <<74,79,73,78>>}
 
@@ -38,8 +38,11 @@ RefEncode(v) ==
      ELSE MATRIXSCHEME \o (CASE v.id[1] = 64 -> <<117>> [] v.id[1] = 35 -> <<114>> [] OTHER -> <<114,111,111,109,105,100>>)
           \o <<47>> \o Enc(Bytes(Tail(v.id))) \o (IF v.ev = <<>> THEN <<>> ELSE <<47, 101, 47>> \o Enc(Bytes(Tail(v.ev)))) \o q
 \* an empty custom action cannot be told from a missing value by any receiver: not a constructible value
-Constructible(v) == ~(v.action = "custom" /\ v.custom = <<>>)
+\* ... and an identifier that consists of its sigil only has no text in the matrix: form (an empty path segment): the identifier
+\* parsers must not produce one
+BareSigil(v) == Len(v.id) = 1 \/ Len(v.ev) = 1
+Constructible(v) == ~(v.action = "custom" /\ v.custom = <<>>) /\ ~BareSigil(v)
 ThmRefEncodeRoundTrips == (phase = 1 /\ Constructible(val)) => Encodes(RefEncode(val), val)
 
-Emit == phase = 1 => PrintT(<<"CASE", ToJson([v |-> val, ok |-> Constructible(val), ref |-> RefEncode(val)])>>)
+Emit == phase = 1 => PrintT(<<"CASE", ToJson([v |-> val, ok |-> Constructible(val), bare |-> BareSigil(val), ref |-> RefEncode(val)])>>)
 =============================================================================
